@@ -1406,6 +1406,7 @@ func (x *fnExec) mapUpdate(fr *frame, st *State, t *ssa.MapUpdate) {
 		return
 	}
 	m := x.val(fr, t.Map).T
+	x.atMapUpdate(fr, st, t)
 	if fr.safety {
 		g := Not(Eq(m, BVU(0, 64)))
 		x.obligation(st, x.safetyName("nilmap"), "safe", "write to nil map at "+x.P.Fset.Position(t.Pos()).String(), nil, g, nil, "")
